@@ -121,3 +121,59 @@ CHECKS["C36"] = dict(
                  "name classes map to '', 'a', a unicode string, 64 characters and 'd/e'; names that alias the same file path are not generated",
                  "malformed key files (hostile JSON, e.g. dklen < 32) are outside the statement and not generated"],
 )
+
+# ------------------------------------------------------------------------------------ C37
+def _c37_corrupt(evs):
+    # a delivery that went fine is recorded as having panicked
+    for i, e in enumerate(evs):
+        if e.get("op") in ("msg", "raw") and not e["panicked"] and e["returned"]:
+            e["panicked"] = True
+            return i
+    return None
+
+
+_C37_PRODUCT_MTS = ["ci.resp", "ci.pyresp", "ci.req", "tr.cheque", "hive.peers", "rt.underresp", "retr.req", "mc.notify"]
+
+
+def _c37_gen(family, name, **kw):
+    env = {"VERIF_FAMILY": family}
+    env.update(kw.pop("env", {}))
+    return dict(mode="exh", spec="MsgShapesGen.tla", cfg="MsgShapesGen.cfg", name=name, env=env, timeout=1500, **kw)
+
+
+CHECKS["C37"] = dict(
+    modules=["msgshapes"], level="exploration", driver="msgdrv",
+    design_ref="5 (C37)",
+    technique="field-shape lattice per protocol message and message -> follow-up sessions in TLA+; TLC enumerates single-field "
+              "deviations, raw byte classes, two-message sequences, field pairs and full products; every scenario is run on the real "
+              "stream handlers / client read paths over in-memory streams in a supervised child process (a panic in a goroutine the "
+              "service started kills the child and is recorded as a crash); MsgShapesTrace.tla judges no-panic / handler-returns",
+    level_text="26 message types of handshake, pingpong, hive2, retrieval, chunkinfo (request/response/pyramid), routetab "
+               "(request/response/underlay/relay chain), traffic cheques and multicast, each with prepared local states and the local "
+               "follow-up operations that read state the message created",
+    level_note="exploration: TLA+ enumerates shapes and sequences, it does not model the decoders and is not a fuzzer; the claim is "
+               "'no panic for any combination inside the lattice plus seeded raw byte classes'. routetab onRelay needs libp2p's "
+               "CallHandler (package libp2p does not compile here) and is not driven; follow-ups that do not return in time are notes",
+    design=[dict(spec="MCMsgShapes.tla", cfg="MCMsgShapes.cfg", workers=2, timeout=300)],
+    gen=dict(
+        quick=[_c37_gen("dev", "dev"),
+               _c37_gen("raw", "raw", max=120),
+               _c37_gen("seq", "seq", max=100)],
+        thorough=[_c37_gen("dev", "dev"),
+                  _c37_gen("raw", "raw"),
+                  _c37_gen("seq", "seq", max=1500),
+                  _c37_gen("pair", "pair", max=2500)]
+                 + [_c37_gen("product", "product-" + m, env={"VERIF_MT": m}, max=400) for m in _C37_PRODUCT_MTS]),
+    judge=dict(spec="MsgShapesTrace.tla", cfg="MsgShapesTrace.cfg"),
+    driver_timeout=3000,
+    corrupt=_c37_corrupt,
+    nontrivial=lambda s: any(o["op"] in ("msg", "raw") for o in s["ops"]),
+    rule="dev: per (message type, prepared state) the well-formed message and every single-field deviation, then all follow-ups; "
+         "raw: 9 raw byte classes per message type; seq: two messages of related types in a row; pair: two fields deviating; "
+         "product: full field-shape product of one message type (sampled by max); distinct = distinct (par, operation list)",
+    exhaustive=dict(quick=False, thorough=False),
+    assumptions=["peers that the node dials answer nothing unless the scenario scripts them (they close their sending side at once)",
+                 "the supervised child is restarted after each process death; a crash is attributed to the scenario in progress "
+                 "after re-running it alone (else to the previous one)",
+                 "multicast's 'subscribed' state (needs an rpc.Notifier) and the traffic ConnectOut client are not driven"],
+)
